@@ -24,6 +24,85 @@ CHECKS["C17"] = dict(
     thorough=[dict(pkg="pure", test="TestC17", shards=16, checks=60000, timeout=900)],
 )
 
+CHECKS["C16"] = dict(
+    level="exploration",
+    engine="pure",
+    technique="property-based test (rapid): generated entry sets, membership oracle (every member must be reported present)",
+    design_ref="DESIGN.md §7 C16",
+    rule=("rapid draws an entry set: 0..12 explicit keys (trap pool, arbitrary bytes, unicode) plus 0..20000 procedurally "
+          "expanded binary keys (size classes 1 / 2-10 / 11-1000 / >1000), 1..7 versions per key; the filter is built "
+          "with filter.Build over versioned entries (queried through ParseKey of a versioned probe, as the engine does) "
+          "or with filter.New(n,p)+Add for n in 1..100000 and p in (0,1) incl. 1e-9 and 0.999999; every member must be "
+          "contained. False-positive rate is not judged. Non-trivial: >= 2 distinct user keys of which >= 1 contains "
+          "'@' or a non-UTF-8 byte; distinct = SHA-256 of the case JSON. Filters rebuilt by recovery are covered by the "
+          "table-level leg (TestC16Levels) once flushed tables are recovered."),
+    assumptions=["filter.New is called with n >= 1 and 0 < p < 1 (it panics otherwise by design)",
+                 "sets above 20000 entries are out of budget"],
+    level_text=("Generated-input search with an exact one-directional oracle (no false negative); this is the whole "
+                "property, the false-positive rate is deliberately not judged."),
+    level_note="trusted: the procedural key expansion (SHA-256 of seed and counter)",
+    quick=[dict(pkg="pure", test="TestC16", shards=16, checks=250, timeout=150)],
+    thorough=[dict(pkg="pure", test="TestC16", shards=16, checks=12000, timeout=1200)],
+)
+
+CHECKS["C13"] = dict(
+    level="exploration",
+    engine="pure",
+    technique="stateful property test (rapid) against a begun/finished counter model with a FIFO barrier, plus concurrent oracle-style workload under -race",
+    design_ref="DESIGN.md §7 C13",
+    rule=("sequential leg: rapid draws 1..60 ops of Begin (non-decreasing indices, repeats), Done (any outstanding index, "
+          "out of order), Done-without-Begin on an idle mark, WaitForMark with background / already-cancelled / "
+          "later-cancelled contexts, bursts of 101..260 marks from a helper goroutine; after every op a FIFO barrier "
+          "(verif-only VerifSync) is passed and DoneUntil must lie in [max(previous, largest finished index below the "
+          "smallest unfinished one), smallest unfinished index) (equality only if it stood there when the index began), "
+          "waiters whose target is covered must have returned nil, nil returns imply DoneUntil >= t, cancelled waiters "
+          "return the context error. concurrent leg (race detector on): 2..8 goroutines take indices under a mutex like "
+          "the oracle, finish them later (partly from other goroutines), read DoneUntil while their index is open, "
+          "wait for earlier indices. Non-trivial (sequential): out-of-order completion AND a repeated index with two "
+          "outstanding begins AND a waiter released by a later Done; (concurrent): shared indices, strict-bound reads and "
+          "waiters all occurred. Liveness verdicts use a 30 s watchdog and convict only if the goroutine dump shows the "
+          "waiter parked in select and the consumer idle; otherwise the run is inconclusive."),
+    assumptions=["Begin(i) only with i >= DoneUntil and Done without Begin only on an idle mark (how oracle.go and Open use it)"],
+    level_text=("Generated-history search against an interval-form reference model (leaves room for other correct "
+                "implementations); the concurrent leg samples real schedules and cannot enumerate them."),
+    level_note="trusted: the counter model in watermark_test.go; VerifSync only pushes a waiter mark through the existing FIFO channel",
+    quick=[dict(pkg="pure", test="TestC13", shards=12, checks=1200, timeout=150),
+           dict(pkg="pure", test="TestC13Conc", race=True, shards=4, checks=150, timeout=150)],
+    thorough=[dict(pkg="pure", test="TestC13", shards=16, checks=40000, timeout=1200),
+              dict(pkg="pure", test="TestC13Conc", race=True, shards=16, checks=1500, timeout=1200)],
+)
+
+CHECKS["C11"] = dict(
+    level="exploration",
+    engine="pure",
+    technique="property-based round-trip and metamorphic (encode-something-else) tests with rapid; concurrent encoder workload under the race detector",
+    design_ref="DESIGN.md §7 C11",
+    death_is_violation=True,
+    rule=("rapid draws one codec case: data block / index block / footer / meta / whole table (table.Build decoded the way "
+          "recovery, compaction and lookups read it: footer -> index -> whole data region and block by block) / wal "
+          "(1..5 entries per Write, Close+Open in between, then Read) / alias. Entries: keys and values as pattern x "
+          "length with length classes {0,1,2,3,7,16,100,255,256,257,1000,4096,65535}, shared prefixes up to 65500 bytes, "
+          "binary and empty strings, nil vs empty values, both tombstone flags, versions over the full int64 range; "
+          "0..400 entries; block sizes 1..4096. Oracles: decode(encode(x)) == x field by field; alias: the bytes an "
+          "encoder returned are snapshotted, further encoders/decoders run in the SAME goroutine, the bytes must be "
+          "unchanged. A second leg draws key/value lengths in {65536,65537,70000,131072,200000}. A third leg (race "
+          "detector) runs 2..5 goroutines encoding, decoding, building tables and appending to one wal, each verifying "
+          "its own round trips and re-decoding a retained earlier result. Non-trivial: >= 2 consecutive entries sharing a "
+          "first byte and >= 1 empty/binary key or value (index: >= 2 entries; alias: second encoding at least as long "
+          "as the first, so an overwrite is visible; size leg: always); distinct = SHA-256 of the case JSON."),
+    assumptions=["the footer magic is read back from a freshly built table rather than hard-coded",
+                 "entries of 4 GiB and more are out of reach"],
+    level_text=("Generated-input search with exact round-trip oracles plus a deterministic single-goroutine aliasing "
+                "relation; the concurrent leg relies on the race detector over executed schedules only."),
+    level_note="trusted: the blob expansion and cmpEntries (nil value == empty value); decodeTable mirrors levelManager.recover/fetch",
+    quick=[dict(pkg="pure", test="TestC11", shards=14, checks=400, timeout=200),
+           dict(pkg="pure", test="TestC11Size", shards=2, checks=150, timeout=200),
+           dict(pkg="pure", test="TestC11Conc", race=True, shards=6, checks=12, timeout=200, replay_tries=1)],
+    thorough=[dict(pkg="pure", test="TestC11", shards=16, checks=30000, timeout=1500),
+              dict(pkg="pure", test="TestC11Size", shards=4, checks=3000, timeout=900),
+              dict(pkg="pure", test="TestC11Conc", race=True, shards=16, checks=150, timeout=900)],
+)
+
 ENGINES = [
     {"name": "pure", "path": "harness/checks/pure", "serves_properties": ["C09", "C10", "C11", "C13", "C16", "C17"],
      "kind_free_text": "component-level rapid properties against reference models / round trips, native fuzz bridge in the thorough tier"},
